@@ -19,6 +19,9 @@ from ..exctypes import ExcTypes
 from ..model import Program, call_name, norm
 from ..report import AnalysisError
 
+# helpers of _sample_chain that the rules look for as calls; any other private helper is inlined
+SAMPLE_CHAIN_ANCHORS = frozenset({"_update_chain_stats", "_update_monitor_stats", "_flush_memmap_chain_data", "_check_and_process_init_state", "_file_paths_to_memmaps", "_memmaps_to_file_paths"})
+
 PROP = "C15"
 KI = "builtins.KeyboardInterrupt"
 
@@ -112,7 +115,7 @@ def _call_nodes(cfg: CFG, pred):
 
 def rule_r1(rep, program: Program, et: ExcTypes):
     r = rep.rule("R1", "_sample_chain: iteration loop inside try / non-reraising KeyboardInterrupt handler / flushing finally; returns loop-carried state and the interrupt", floor=4)
-    f = program.func("samplers", "_sample_chain")
+    f = program.func_inlined("samplers", "_sample_chain", keep=SAMPLE_CHAIN_ANCHORS)
     loops = [n for n in ast.walk(f.node) if isinstance(n, ast.For) and norm(n.iter) == "chain_iterator"]
     if len(loops) != 1:
         raise AnalysisError("_sample_chain: iteration loop not found")
@@ -303,7 +306,7 @@ def rule_r2(rep, program: Program, et: ExcTypes):
 
 def rule_r3(rep, program: Program):
     r = rep.rule("R3", "rows are written directly into the output arrays inside the iteration loop (nothing is buffered until after the loop)", floor=2)
-    f = program.func("samplers", "_sample_chain")
+    f = program.func_inlined("samplers", "_sample_chain", keep=SAMPLE_CHAIN_ANCHORS)
     loops = [n for n in ast.walk(f.node) if isinstance(n, ast.For) and norm(n.iter) == "chain_iterator"]
     loop = loops[0]
     inside = [n for n in ast.walk(loop) if isinstance(n, ast.Assign) and isinstance(n.targets[0], ast.Subscript) and norm(n.targets[0].value).startswith("chain_traces[")]
